@@ -739,7 +739,7 @@ def gen(rng, tier):
             yield _pp_line(rng, rng.choice(CLASS_NAMES), bits, t1, t2, w, rng.choice(seps + more_seps if rng.random() < 0.2 else seps),
                            rng.random() < 0.5, rng.random() < 0.35, rng.random() < 0.6)
     # (c) random
-    for _ in range(250000 if big else 20000):
+    for _ in range(250000 if big else 14000):
         n = rng.choice([rng.randint(0, 70), rng.randint(0, 70), rng.randint(71, 300), rng.randint(985, 1015), rng.choice(BOUNDARY_LENGTHS)])
         t1, t2 = _rand_fmt(rng, n)
         n = _fit_len(rng, n, t1, t2)
